@@ -3,7 +3,7 @@
    to nine digits, and `Display` output parses back.  Statements only; the proofs are in
    Proofs/DatetimeEq.v. *)
 From TV Require Import Base.Prelude Base.Winnow Gen.Consts Model.Datetime Model.DatetimeStd
-  Spec.DatetimeSpec Proofs.DatetimeEq.
+  Spec.DatetimeSpec Spec.Syntax Proofs.DatetimeEq Proofs.DatetimeExact.
 
 (* The two parsers compute the same partial function on all byte strings. *)
 Theorem C12_agree : forall s : bytes, std_from_str s = doc_datetime s.
@@ -20,6 +20,19 @@ Theorem C12_print_parse : forall d, in_range d = true ->
   std_from_str (display_datetime d) = Some d /\ doc_datetime (display_datetime d) = Some d.
 Proof. exact print_parse. Qed.
 Print Assumptions C12_print_parse.
+
+(* EXACTNESS against the specification: a byte string is accepted (by either parser, see C12_agree) exactly when it is,
+   as a whole, a date-time token of the specification's grammar (Spec/Syntax.v date_time_tok: offset date-time, local
+   date-time, local date, local time; `T`, `t` or one space between date and time; `Z`, `z` or a numeric offset; any
+   number of fraction digits; RFC 3339 field ranges with the leap-year rule and second 60), and the value is the one
+   the token denotes.  Everything else is rejected. *)
+Theorem C12_exact : forall s d, std_from_str s = Some d <-> date_time_tok s d.
+Proof. exact std_datetime_exact. Qed.
+Print Assumptions C12_exact.
+
+Theorem C12_rejects_the_rest : forall s, std_from_str s = None <-> forall d, ~ date_time_tok s d.
+Proof. exact std_datetime_rejects. Qed.
+Print Assumptions C12_rejects_the_rest.
 
 (* Fraction digits past the ninth are accepted and ignored (truncation, not rounding). *)
 Theorem C12_truncation : forall ds es,
